@@ -68,7 +68,9 @@ pub fn exec(rec: &Value, _st: &mut State) -> Value {
                 Mesh::new_with_uv(moved.clone(), faces.clone(), false, Some(map))
             };
             // probe points: rational barycentric combinations on every face (sixths)
-            let bcs: [[i64; 3]; 7] = [[2, 2, 2], [3, 3, 0], [0, 3, 3], [3, 0, 3], [6, 0, 0], [4, 1, 1], [1, 1, 4]];
+            // (edge points off the midpoints as well: a midpoint hides an exchange of the two end weights)
+            let bcs: [[i64; 3]; 13] = [[2, 2, 2], [3, 3, 0], [0, 3, 3], [3, 0, 3], [6, 0, 0], [4, 1, 1], [1, 1, 4],
+                                       [4, 2, 0], [1, 5, 0], [0, 4, 2], [0, 1, 5], [2, 0, 4], [5, 0, 1]];
             let mut probes = vec![];
             for (k, f) in faces.iter().enumerate() {
                 for bc in bcs.iter() {
